@@ -122,12 +122,24 @@ impl World {
     pub fn scrub(&self, s: &str) -> String {
         s.replace(&format!("{}/", self.folder_uri()), "$WS/")
     }
+    /// The workspace-relative path a URI denotes (percent-encoding decoded).
     pub fn rel(&self, uri: &str) -> String {
         let base = self.folder_uri().to_string();
         if uri == base {
             return "$WS".to_string();
         }
-        uri.strip_prefix(&format!("{base}/")).unwrap_or(uri).to_string()
+        if let Some(r) = uri.strip_prefix(&format!("{base}/")) {
+            if let Ok(p) = Url::parse(uri).map_err(|_| ()).and_then(|u| u.to_file_path()) {
+                let root = self.root.canonicalize().expect("scratch root");
+                if let Ok(rp) = p.strip_prefix(&root) {
+                    if let Some(s) = rp.to_str() {
+                        return s.to_string();
+                    }
+                }
+            }
+            return r.to_string();
+        }
+        uri.to_string()
     }
 }
 
